@@ -1983,25 +1983,25 @@ void NifFile::PrepareData() {
 			if (!bsTriShape)
 				continue;
 
+			NiSkinPartition* skinPart = nullptr;
 			auto skinInst = hdr.GetBlock<NiSkinInstance>(shape->SkinInstanceRef());
-			if (!skinInst)
-				continue;
+			if (skinInst)
+				skinPart = hdr.GetBlock(skinInst->skinPartitionRef);
 
-			auto skinPart = hdr.GetBlock(skinInst->skinPartitionRef);
-			if (!skinPart)
-				continue;
+			if (skinPart) {
+				bsTriShape->SetVertexData(skinPart->vertData);
 
-			bsTriShape->SetVertexData(skinPart->vertData);
+				std::vector<Triangle> tris;
+				for (int pi = 0; pi < static_cast<int>(skinPart->partitions.size()); ++pi)
+					for (auto& tri : skinPart->partitions[pi].trueTriangles) {
+						tris.push_back(tri);
+						skinPart->triParts.push_back(pi);
+					}
 
-			std::vector<Triangle> tris;
-			for (int pi = 0; pi < static_cast<int>(skinPart->partitions.size()); ++pi)
-				for (auto& tri : skinPart->partitions[pi].trueTriangles) {
-					tris.push_back(tri);
-					skinPart->triParts.push_back(pi);
-				}
+				bsTriShape->SetTriangles(tris);
+			}
 
-			bsTriShape->SetTriangles(tris);
-
+			// Dynamic shapes keep their positions in the dynamic data, skinned or not
 			auto dynamicShape = dynamic_cast<BSDynamicTriShape*>(bsTriShape);
 			if (dynamicShape) {
 				for (uint16_t i = 0; i < dynamicShape->GetNumVertices(); i++) {
